@@ -196,6 +196,39 @@ class AnyGuard:
         return e
 
 
+def helper_guard_edges(model, chain, view, spec, depth=0):
+    """Pass edges contributed by workspace helpers used as guards: `helper(..)?` where every non-error return
+    of the helper is dominated by the guard `spec` evaluated inside the helper with its parameters resolved
+    at this call site (so extracting a guard into a function does not change the verdict)."""
+    edges = []
+    if depth > 1:
+        return edges
+    for b in sorted(view.live_blocks()):
+        te = try_edges(view, b)
+        if not te:
+            continue
+        cont, brk, bblock, inner = te
+        for o in view.origins_of_operand(inner, at=view.at_term(bblock)):
+            if o.kind != "call":
+                continue
+            fn, bb = o.b.rsplit(":bb", 1)
+            if fn != view.path:
+                continue
+            t = view.blocks[int(bb)]["t"]
+            callee = term_callee(t)
+            if callee not in model.fnsrc or callee == view.path:
+                continue
+            hv = model.view(callee)
+            if "Result" not in hv.fn["ret"] or "Response" in hv.fn["ret"]:
+                continue
+            sub = chain + ((view.path, int(bb), "call"),)
+            he = spec.pass_edges(model, sub, hv) + (helper_guard_edges(model, sub, hv, spec, depth + 1) if depth < 1 else [])
+            oks = ok_return_blocks(hv)
+            if he and oks and all(hv.edge_dominated(ob, he) for ob in oks):
+                edges += cont
+    return edges
+
+
 def site_guarded(model, chain, fn_path, block, spec):
     """Is (fn_path, block), reached through `chain`, dominated by pass edges of `spec` in some
     frame of the chain? Returns (True, frame description) or (False, None)."""
@@ -203,6 +236,8 @@ def site_guarded(model, chain, fn_path, block, spec):
     for f, b, sub in reversed(frames):
         v = model.view(f)
         edges = spec.pass_edges(model, sub, v)
+        if not (edges and v.edge_dominated(b, edges)) and not isinstance(spec, HelperGuard):
+            edges = edges + helper_guard_edges(model, sub, v, spec)
         if edges and v.edge_dominated(b, edges):
             return True, "%s guard in %s dominates bb%d via edges %s" % (spec.name, f, b, sorted(set(edges)))
     return False, None
